@@ -167,7 +167,10 @@ func (g *G) genAction(f *FlowSpec, nd *nodeDraft, loc J) J {
 		if t.Chance("attachments", 1, 4) {
 			atts := []string{}
 			for i, n := 0, 1+t.Pick("natts", 2); i < n; i++ {
-				atts = append(atts, []string{"image/jpeg:http://x.com/" + g.marker(au, "", "attachments", i) + ".jpg", "audio/mp3:http://x.com/@contact.uuid.mp3", "image:@fields.nick", "application/pdf:http://x.com/" + strings.Repeat("y", 2100)}[t.Weighted("attkind", 5, 1, 1, 1)])
+				atts = append(atts, []string{"image/jpeg:http://x.com/" + g.marker(au, "", "attachments", i) + ".jpg", "audio/mp3:http://x.com/@contact.uuid.mp3", "image:@fields.nick", "application/pdf:http://x.com/" + strings.Repeat("y", 2100),
+					// at the boundary: the URL alone is within the limit, the attachment is not
+					"application/pdf:http://x.com/" + strings.Repeat("y", 2025), "image/jpeg:http://x.com/@(repeat(\"z\", 2028))",
+					"application/vnd.openxmlformats-officedocument.wordprocessingml.document:http://x.com/" + strings.Repeat("w", 1990)}[t.Weighted("attkind", 10, 2, 2, 2, 1, 1, 1)])
 			}
 			a["attachments"] = toAnyS(atts)
 			g.localize(f, loc, au, "attachments", atts, func(lang string, i int) string {
